@@ -13,8 +13,12 @@ import (
 	"github.com/cosmos/cosmos-sdk/store"
 	storetypes "github.com/cosmos/cosmos-sdk/store/types"
 	sdk "github.com/cosmos/cosmos-sdk/types"
+	paramtypes "github.com/cosmos/cosmos-sdk/x/params/types"
 )
 
+//verif:override (github.com/cosmos/cosmos-sdk/x/params/types.Subspace).GetParamSet -> SubspaceGetParamSet
+//verif:override (github.com/cosmos/cosmos-sdk/x/params/types.Subspace).GetParamSetIfExists -> SubspaceGetParamSet
+//verif:override (github.com/cosmos/cosmos-sdk/x/params/types.Subspace).SetParamSet -> SubspaceSetParamSet
 //verif:override (github.com/cosmos/cosmos-sdk/types.Context).KVStore -> CtxKVStore
 //verif:override (github.com/cosmos/cosmos-sdk/types.Context).TransientStore -> CtxKVStore
 
@@ -22,6 +26,31 @@ import (
 // wrapper (gaskv) is skipped, the store of the harness multistore is returned directly.
 func CtxKVStore(ctx sdk.Context, key storetypes.StoreKey) sdk.KVStore {
 	return ctx.MultiStore().GetKVStore(key)
+}
+
+// ---------------------------------------------------------------- legacy param subspaces
+
+var paramsKey storetypes.StoreKey
+
+// NewSubspace: natively the real x/params subspace (key table from kt); under the executor a bare subspace whose
+// Get/SetParamSet are redirected to SubspaceGet/SetParamSet (the whole set is one typed blob in the "params" store).
+func NewSubspace(e *Env, name string, kt func() paramtypes.KeyTable) paramtypes.Subspace {
+	if Native() {
+		return paramtypes.NewSubspace(Codec(), codec.NewLegacyAmino(), e.Key("params"), e.Key("transient_params"), name).WithKeyTable(kt())
+	}
+	return paramtypes.NewSubspace(nil, nil, e.Key("params"), e.Key("transient_params"), name)
+}
+
+func SubspaceGetParamSet(s paramtypes.Subspace, ctx sdk.Context, ps paramtypes.ParamSet) {
+	bz := ctx.MultiStore().GetKVStore(paramsKey).Get([]byte("paramset/" + s.Name()))
+	if bz == nil {
+		return
+	}
+	Codec().MustUnmarshal(bz, ps.(codec.ProtoMarshaler))
+}
+
+func SubspaceSetParamSet(s paramtypes.Subspace, ctx sdk.Context, ps paramtypes.ParamSet) {
+	ctx.MultiStore().GetKVStore(paramsKey).Set([]byte("paramset/"+s.Name()), Codec().MustMarshal(ps.(codec.ProtoMarshaler)))
 }
 
 // ---------------------------------------------------------------- MemStore
@@ -196,12 +225,15 @@ func (e *Env) Key(name string) storetypes.StoreKey { return e.keys[name] }
 // NewEnv creates the context with the named KV stores and transient stores mounted.
 func NewEnv(kv []string, transient []string) *Env {
 	e := &Env{keys: map[string]storetypes.StoreKey{}}
+	kv = append(append([]string{}, kv...), "params")
+	transient = append(append([]string{}, transient...), "transient_params")
 	for _, n := range kv {
 		e.keys[n] = storetypes.NewKVStoreKey(n)
 	}
 	for _, n := range transient {
 		e.keys[n] = storetypes.NewTransientStoreKey(n)
 	}
+	paramsKey = e.keys["params"]
 	if Native() {
 		db := dbm.NewMemDB()
 		cms := store.NewCommitMultiStore(db)
